@@ -139,7 +139,26 @@ impl<'c> Slice<'c> {
             record.validate()?;
         }
 
+        // Resolving mates generates a name for each record that does not have one. When read names
+        // are preserved, such a record has a missing name (`*`) rather than no stored name, so it
+        // is left without one.
+        let unnamed_record_indices: Vec<_> =
+            if compression_header.preservation_map().records_have_names() {
+                records
+                    .iter()
+                    .enumerate()
+                    .filter(|(_, record)| record.name.is_none())
+                    .map(|(i, _)| i)
+                    .collect()
+            } else {
+                Vec::new()
+            };
+
         resolve_mates(&mut records)?;
+
+        for i in unnamed_record_indices {
+            records[i].name = None;
+        }
 
         Ok(records)
     }
